@@ -7,7 +7,7 @@ from vlib import coq
 
 PROP = "C17"
 LEVEL = "proof"
-COQ_TARGETS = []
+COQ_TARGETS = ["C17/Model.vo", "C17/Alg.vo", "C17/Sched.vo", "C17/Float.vo"]
 COQ_DIRS = ["C17"]
 PROPERTIES_FILE = None
 ALLOWED_AXIOMS = set()
@@ -852,3 +852,254 @@ def gen_case(rng, routine=None, bad_fraction=0.2, max_n=7):
     else:
         raise KeyError(routine)
     return {"routine": routine, "kind": kind, "n": int(n), "opts": opts, "matrix": mat_to_json(A)}
+
+
+# ------------------------------------------------------------------ correspondence: Coq model vs implementation
+COQ_HEADER = ("From Coq Require Import List Arith Bool Floats.\nImport ListNotations.\n"
+              "From SFV Require Import C17.Model C17.Float.\nOpen Scope float_scope.\n")
+
+
+def coq_cmatrix(A):
+    A = np.asarray(A, dtype=complex)
+    return coq.coq_list([coq.coq_list(["(%s, %s)" % (coq.coq_float(z.real), coq.coq_float(z.imag)) for z in row]) for row in A])
+
+
+def record_schedule(routine, n, rs):
+    """Order in which the implementation nulls elements: list of (is_col, row, col)."""
+    d = dec()
+    rec = []
+    saved = {k: getattr(d, k) for k in ("nullTi", "nullT", "nullMZi", "nullMZ")}
+
+    def wrap(name, is_col):
+        orig = saved[name]
+
+        def f(a, b, U):
+            rec.append((is_col, int(a), int(b)))
+            return orig(a, b, U)
+        return f
+    try:
+        d.nullTi = wrap("nullTi", True); d.nullMZi = wrap("nullMZi", True)
+        d.nullT = wrap("nullT", False); d.nullMZ = wrap("nullMZ", False)
+        getattr(d, routine)(haar(n, rs))
+    finally:
+        for k, v in saved.items():
+            setattr(d, k, v)
+    return rec
+
+
+def _cx(p):
+    return complex(p[0], p[1])
+
+
+def _close(a, b, tol=1e-6):
+    return abs(a - b) <= tol
+
+
+def _blocks_T(entries, N):
+    """entries: list of (is_col, tr, tc, (c, s, (er, ei))) from the model; rebuild the product the way rectangular's
+    caller does, return reconstruction."""
+    q = np.eye(N, dtype=complex)
+    cols = [e for e in entries if e[0]]
+    rows = [e for e in entries if not e[0]]
+    return cols, rows
+
+
+def _T_from(c, s, e, m, N):
+    M = np.eye(N, dtype=complex)
+    M[m, m] = e * c; M[m, m + 1] = -s; M[m + 1, m] = e * s; M[m + 1, m + 1] = c
+    return M
+
+
+def _MZ_from(u, w, m, N):
+    M = np.eye(N, dtype=complex)
+    M[m, m] = 0.5 * (u - 1) * w; M[m, m + 1] = 0.5j * (u + 1); M[m + 1, m] = 0.5j * (u + 1) * w; M[m + 1, m + 1] = 0.5 * (1 - u)
+    return M
+
+
+def model_reconstruct(kind, steps, diag, N):
+    """Unitary implemented by the model's own factors (kind 'T' or 'MZ'), rectangular layout."""
+    q = np.eye(N, dtype=complex)
+    mk = (lambda p, m: _T_from(p[0], p[1], _cx(p[2]), m, N)) if kind == "T" else (lambda p, m: _MZ_from(_cx(p[0]), _cx(p[1]), m, N))
+    for is_col, tr, tc, p in steps:
+        if is_col:
+            q = mk(p, tc) @ q
+    q = np.diag([_cx(d) for d in diag]) @ q
+    for is_col, tr, tc, p in reversed([s for s in steps if not s[0]]):
+        q = mk(p, tr - 1).conj().T @ q
+    return q
+
+
+def compare_T(steps, impl_ti, impl_t):
+    cols = [s for s in steps if s[0]]
+    rows = [s for s in steps if not s[0]]
+    if len(cols) != len(impl_ti) or len(rows) != len(impl_t):
+        return "lengths differ"
+    for lst, impl, col in ((cols, impl_ti, True), (rows, impl_t, False)):
+        for (is_col, tr, tc, (c, s, e)), ent in zip(lst, impl):
+            m = tc if col else tr - 1
+            if int(ent[0]) != m or int(ent[1]) != m + 1:
+                return "indices differ: model %d impl %r" % (m, ent[:2])
+            if not (_close(c, np.cos(ent[2])) and _close(s, np.sin(ent[2])) and _close(_cx(e), np.exp(1j * ent[3]))):
+                return "parameters differ at (%d,%d): model c=%.9g s=%.9g e=%r impl theta=%.9g phi=%.9g" % (tr, tc, c, s, e, ent[2], ent[3])
+    return None
+
+
+def compare_MZ(steps, impl_ti, impl_t):
+    cols = [s for s in steps if s[0]]
+    rows = [s for s in steps if not s[0]]
+    if len(cols) != len(impl_ti) or len(rows) != len(impl_t):
+        return "lengths differ"
+    for lst, impl, col in ((cols, impl_ti, True), (rows, impl_t, False)):
+        for (is_col, tr, tc, (u, w)), ent in zip(lst, impl):
+            m = tc if col else tr - 1
+            if int(ent[0]) != m or int(ent[1]) != m + 1:
+                return "indices differ: model %d impl %r" % (m, ent[:2])
+            if not (_close(_cx(u), np.exp(1j * ent[2])) and _close(_cx(w), np.exp(1j * ent[3]))):
+                return "parameters differ at (%d,%d): model u=%r w=%r impl phi_i=%.9g phi_e=%.9g" % (tr, tc, u, w, ent[2], ent[3])
+    return None
+
+
+def compare_diag(model_d, impl_d):
+    if len(model_d) != len(impl_d):
+        return "diagonal lengths differ"
+    for a, b in zip(model_d, impl_d):
+        if not _close(_cx(a), complex(b)):
+            return "diagonal differs: model %r impl %r" % (a, b)
+    return None
+
+
+CORR_KINDS = ["haar", "haar", "identity", "anti-identity", "permutation", "phase-permutation", "diagonal", "block", "embedded",
+              "sparse", "dft", "real-orthogonal", "givens", "neg-identity"]
+
+
+def correspondence(ctx):
+    rng = ctx.rng
+    rs = np.random.RandomState(rng.getrandbits(32))
+    d = dec()
+    # ---- (1) nulling order, exact
+    max_n = ctx.budget(9, 14)
+    lines = [COQ_HEADER]
+    for n in range(1, max_n + 1):
+        lines.append("Eval vm_compute in (sched_out (rect_schedule %d), sched_out (tri_schedule %d))." % (n, n))
+    ok, vals, raw = ctx.coq_eval("sched", "\n".join(lines))
+    if not ok:
+        ctx.obligation("correspondence:schedule", False, raw)
+    else:
+        bad = None
+        for n, (rect_m, tri_m) in zip(range(1, max_n + 1), vals):
+            for routine, model in (("rectangular", rect_m), ("rectangular_MZ", rect_m), ("triangular", tri_m)):
+                impl = record_schedule(routine, n, rs)
+                model_l = [(bool(a), int(b), int(c)) for a, b, c in model]
+                ctx.case({"check": "schedule", "routine": routine, "n": n}, nontrivial=n >= 3, bucket="schedule")
+                ctx.traces += 1
+                if impl != model_l:
+                    bad = (routine, n, impl, model_l)
+                    # does the implementation still decompose correctly?
+                    case = {"routine": routine, "kind": "haar", "n": n, "opts": {}, "matrix": mat_to_json(haar(n, rs))}
+                    out, fail = evaluate(case)
+                    if fail:
+                        ctx.counterexample(fail[0] + ":haar", fail[1], case)
+                    ctx.disagreement("corr:schedule:" + routine, "nulling order of %s(n=%d) differs from the model: impl %r model %r" % (routine, n, impl[:8], model_l[:8]),
+                                     {"routine": routine, "n": n, "impl": impl, "model": model_l})
+                    break
+            if bad:
+                break
+        ctx.obligation("correspondence:schedule", bad is None, "" if bad is None else repr(bad)[:1500])
+    # ---- (2) float model of rectangular / phase_end / triangular / rectangular_MZ / rectangular_symmetric
+    n_cases = ctx.budget(60, 400)
+    cases = []
+    for i in range(n_cases):
+        kind = CORR_KINDS[i % len(CORR_KINDS)] if i < 2 * len(CORR_KINDS) else rng.choice(CORR_KINDS)
+        n = rng.randint(1, 6) if rng.random() < 0.85 else rng.randint(7, 9)
+        A = np.asarray(gen_unitary(rs, kind, n), dtype=complex)
+        cases.append((kind, n, A))
+    diverged = 0
+    shard = 40
+    for si in range(0, len(cases), shard):
+        lines = [COQ_HEADER]
+        for kind, n, A in cases[si:si + shard]:
+            lines.append("Definition V := %s." % coq_cmatrix(A))
+            lines.append("Eval vm_compute in (rectangular_f %d V, triangular_f %d V, rectangular_MZ_f %d V)." % (n, n, n))
+            lines.append("Reset V.")
+        ok, vals, raw = ctx.coq_eval("mesh_%d" % (si // shard), "\n".join(lines), timeout=600)
+        if not ok or len(vals) != len(cases[si:si + shard]):
+            ctx.obligation("correspondence:mesh:shard%d" % (si // shard), False, raw)
+            return
+        for (kind, n, A), (rect_m, tri_m, mz_m) in zip(cases[si:si + shard], vals):
+            ctx.traces += 1
+            case_json = {"check": "mesh-model", "kind": kind, "n": n, "matrix": mat_to_json(A)}
+            ctx.case(case_json, nontrivial=is_nontrivial(kind), bucket="corr-" + kind)
+            problems = []
+            try:
+                ti, dg, t = d.rectangular(A)
+                pe_t, pe_d, _ = d.rectangular_phase_end(A)
+                tri_t, tri_d, _ = d.triangular(A)
+                mti, mdg, mt = d.rectangular_MZ(A)
+                sy_t, sy_d, _ = d.rectangular_symmetric(A)
+            except Exception as e:  # noqa: BLE001
+                ctx.counterexample("mesh:valid-input-raises:" + kind, "valid unitary (%s) raised %r" % (kind, e), {"routine": "rectangular", "kind": kind, "n": n, "opts": {}, "matrix": mat_to_json(A)})
+                continue
+            steps, mdiag, pushed, pdiag = rect_m
+            r = compare_T(steps, ti, t) or compare_diag(mdiag, dg)
+            if r:
+                problems.append(("rectangular", r, ("T", steps, mdiag)))
+            else:
+                # phase_end: first part equals tilist, the pushed elements follow
+                k = len(ti)
+                r2 = None
+                if len(pe_t) != k + len(pushed):
+                    r2 = "phase_end length"
+                else:
+                    for (m, (c, s, e)), ent in zip(pushed, pe_t[k:]):
+                        if int(ent[0]) != m or not (_close(c, np.cos(ent[2])) and _close(s, np.sin(ent[2])) and _close(_cx(e), np.exp(1j * ent[3]))):
+                            r2 = "pushed element differs at mode %d: model %r impl %r" % (m, (c, s, e), ent)
+                            break
+                    r2 = r2 or compare_diag(pdiag, pe_d)
+                if r2:
+                    problems.append(("rectangular_phase_end", r2, None))
+            tsteps, tdiag = tri_m
+            r = compare_T(tsteps, [], list(reversed(tri_t))) or compare_diag(tdiag, tri_d)
+            if r:
+                problems.append(("triangular", r, ("tri", tsteps, tdiag)))
+            zsteps, zdiag, zpushed, zpdiag = mz_m
+            r = compare_MZ(zsteps, mti, mt) or compare_diag(zdiag, mdg)
+            if r:
+                problems.append(("rectangular_MZ", r, ("MZ", zsteps, zdiag)))
+            else:
+                k = len(mti)
+                r2 = None
+                if len(sy_t) != k + len(zpushed):
+                    r2 = "symmetric length"
+                else:
+                    for (m, (u, w)), ent in zip(zpushed, sy_t[k:]):
+                        if int(ent[0]) != m or not (_close(_cx(u), np.exp(1j * ent[2])) and _close(_cx(w), np.exp(1j * ent[3]))):
+                            r2 = "pushed MZ element differs at mode %d: model %r impl %r" % (m, (u, w), ent)
+                            break
+                    r2 = r2 or compare_diag(zpdiag, sy_d)
+                if r2:
+                    problems.append(("rectangular_symmetric", r2, None))
+            for routine, why, own in problems:
+                # model != implementation here.  First: does the implementation violate the property on this input?
+                case = {"routine": routine, "kind": kind, "n": n, "opts": {}, "matrix": mat_to_json(A)}
+                out, fail = evaluate(case)
+                if fail:
+                    ctx.counterexample(fail[0] + ":" + kind, fail[1], case)
+                    continue
+                # both may be valid decompositions that took different exact-zero / ill-conditioned branches
+                benign = False
+                if own is not None and kind != "haar":
+                    k2, st, dg2 = own
+                    if k2 == "tri":
+                        q = np.diag([_cx(x) for x in dg2]).astype(complex)
+                        for is_col, tr_, tc_, p in reversed(st):
+                            q = _T_from(p[0], p[1], _cx(p[2]), tr_ - 1, n).conj().T @ q
+                    else:
+                        q = model_reconstruct(k2, st, dg2, n)
+                    benign = np.abs(q - A).max(initial=0) <= 1e-8
+                if benign:
+                    diverged += 1
+                    ctx.hist["corr-diverged-benign"] = ctx.hist.get("corr-diverged-benign", 0) + 1
+                else:
+                    ctx.disagreement("corr:mesh:" + routine, "model and implementation differ on a %s unitary (n=%d): %s" % (kind, n, why), case)
+    ctx.notes.append("mesh correspondence: %d inputs x 5 routines, %d benign branch divergences (both outputs valid decompositions)" % (len(cases), diverged))
+    ctx.obligation("correspondence:mesh:divergence-rate", diverged <= max(3, 0.1 * len(cases) * 5), "%d diverged" % diverged)
